@@ -1,6 +1,7 @@
 package main
 
 import (
+	"bytes"
 	"encoding/json"
 	"fmt"
 	"math"
@@ -383,12 +384,33 @@ func hllCase(c *Ctx, m uint64, redis bool) {
 		}
 		c.branch("merge-no-sharing")
 	}
+	// a sketch restored from its binary image is as good a Merge argument as the one written
+	if !redis {
+		if hm, ok := Y.(hllMem); ok {
+			var buf bytes.Buffer
+			if _, err := hm.h.WriteTo(&buf); err == nil {
+				rest := &gostatix.HyperLogLog{}
+				if _, err := rest.ReadFrom(&buf); err == nil {
+					t1, _ := gostatix.NewHyperLogLog(m)
+					t2, _ := gostatix.NewHyperLogLog(m)
+					e1, e2 := t1.Merge(hm.h), t2.Merge(rest)
+					d1, _ := t1.Export()
+					d2, _ := t2.Export()
+					if (e1 == nil) != (e2 == nil) || string(d1) != string(d2) {
+						c.fail([]string{"C06", "C11"}, "hll-restored-merge-differs", fmt.Sprintf("%s: merging a sketch restored by ReadFrom gives another result than merging the sketch that was written (%v / %v)", cfg, e1, e2), replay)
+						return
+					}
+					c.branch("merge-restored-source")
+				}
+			}
+		}
+	}
 	// idempotent: merging Y again, and merging a sketch with itself, change nothing
 	X.Merge(Y)
 	X.Merge(X)
 	rm2, _ := hllRegs(X)
 	if !eqU64(rm2, regsA) {
-		c.fail([]string{"C06"}, "hll-merge-not-idempotent", cfg+": merging again changed the registers", replay)
+		c.fail([]string{"C06", "C05", "C08"}, "hll-merge-not-idempotent", cfg+": merging again changed the registers", replay)
 	}
 	// commutative: Y.Merge(X0) where X0 = first half
 	X0, _ := newHLL(m, redis)
